@@ -21,7 +21,7 @@ RULE = ("case = generated layout (depth <= 4, 10-25 entries incl. look-alikes an
         "directories (relative and absolute -c); then one sub-directory unreadable, TMPDIR on another file system, and (35 %) one "
         "sub-directory of the source tree as the mount point of another file system (other st_dev, EXDEV across it). Non-trivial = layout with at least one out-of-scope decoy carrying a missing "
         "reference and one in-scope file; distinct = case index.")
-PROBES = ["hard_link_out_of_scope", "readdir_without_types", "mount_point_in_tree", "config_via_symlink", "exdev_run", "stem_siblings", "unreadable_subdir", "config_in_subdir", "symlink_to_file", "symlink_to_dir", "symlink_outside", "dir_named_rs", "lookalike_ext", "abs_source_dir", "cwd_outside",
+PROBES = ["files_older_than_lock", "fifo_named_rs", "hard_link_out_of_scope", "readdir_without_types", "mount_point_in_tree", "config_via_symlink", "exdev_run", "stem_siblings", "unreadable_subdir", "config_in_subdir", "symlink_to_file", "symlink_to_dir", "symlink_outside", "dir_named_rs", "lookalike_ext", "abs_source_dir", "cwd_outside",
           "cwd_root_abs", "empty_scope", "multi_ext", "hidden_rs", "nested_depth4"]
 ASSUMPTIONS = ["source_dir itself is a real directory (not a symlink)"]
 DEADLINE = {"quick": 200, "thorough": 3000}
@@ -140,6 +140,10 @@ def gen(rng):
     if rng.random() < 0.3:
         extra[os.path.join(base, "sib_link.rs")] = {"t": "l", "target": up + "/proj/build.rs"}
         tags.add("symlink_to_file")
+    if rng.random() < 0.2:
+        # something that is named like a source file but is not a regular file
+        extra[os.path.join(base, rng.choice(["pipe.rs", "net/ctl.rs", "zz_fifo.rs"]))] = {"t": "p"}
+        tags.add("fifo_named_rs")
     if rng.random() < 0.25:
         # other (hard-linked) names of the plain in-scope file outside the scope: a cp -al snapshot, an editor's .orig
         extra["outside/snapshot/main.rs"] = {"t": "h", "to": os.path.join(base, "main.rs")}
@@ -150,6 +154,15 @@ def gen(rng):
     wm = {"cfg": cfg, "files": {}, "extra": extra, "lock": None}
     if cfgdir:
         wm["cfg_name"] = cfgdir + "/Breadlog.yaml"
+    if cfg["use_cache"] is not False and rng.random() < 0.2:
+        # an earlier run left its lock, and the source files are older than it (moved in with mv / cp -p / tar x / a checkout
+        # that wrote the sources first): scope has nothing to do with file times
+        lockp = "proj/" + (cfgdir + "/" if cfgdir else "") + "Breadlog.lock"
+        extra[lockp] = {"t": "f", "mode": 0o644, "data": core.lock_text(rng.randrange(3000, 9000))}
+        now = 1790000000
+        wm["mtimes"] = {q: now - rng.choice([86400 * 2, 86400 * 400, 3600]) for q, e in extra.items() if e["t"] == "f" and q != lockp}
+        wm["mtimes"][lockp] = now
+        tags.add("files_older_than_lock")
     seed = rng.getrandbits(40) | 1
     if rng.random() < 0.15:
         wm["dt_unknown"] = True      # readdir does not tell the entry type on this file system
@@ -247,7 +260,7 @@ def evaluate(wm, seed, base, ctx, cwds=(("outside", "rel"), ("/", "abs"))):
         changed = core.diff_worlds(run["before"], run["after"], ignore=("tmp",))
         lock_expected = world.cfg_uses_lock(wm["cfg"]) and bool(scope)
         for p, how in changed:
-            if p == lockpath and how == "added" and world.cfg_uses_lock(wm["cfg"]):
+            if p == lockpath and how in ("added", "changed") and world.cfg_uses_lock(wm["cfg"]):
                 continue
             if p in scope and how == "changed":
                 continue
